@@ -53,11 +53,8 @@ def run_case(case, rec, cid):
 
 
 def classify(case, rej, events):
-    t = case["t"]
-    day = t["dom"] > 0 or t["doy"] > 0 or t["dow"] > 0 or t["woy"] > 0
-    manifest = rej["clause"] in ("not-the-earliest-time-of-day", "earlier-match-on-p's-day", "second-application-moves")
-    if manifest and t["hh"] < 0 and (t["mi"] >= 0 or t["ss"] >= 0) and day:
-        return "minute/second-without-hour-plus-day-designator"
+    # (the class "minute/second without hour plus a day designator" was a recorded finding until it was repaired by 3e75abc;
+    #  nothing is excused any more)
     return None
 
 
